@@ -290,7 +290,7 @@ func runC15Representations(c *Ctx) {
 	{
 		fr := []string{"", ".0", ".5", ".12", ".000", ".120", ".999", ".0004", ".0010", ".000400", ".123456", ".000001", ".100000", ".00040"}
 		offs := []string{"", "Z", "+05:30", "-11:00", "+00:00"}
-		for _, d := range []string{"2020-01-01", "1999-12-31", "2024-02-29"} {
+		for _, d := range []string{"2020-01-01", "1999-12-31", "2024-02-29", "1600-02-29", "0001-01-01", "9999-12-31", "2300-06-15", "1500-03-01", "1677-09-21", "2262-04-12"} {
 			for _, hms := range []string{"10:00:00", "23:59:59", "00:00:00"} {
 				for _, f := range fr {
 					for _, o := range offs {
